@@ -255,12 +255,23 @@ def rule_thread_and_contain(chk, qa, itemvars):
     thr = [(n, c) for n in scfg.live for c, m in calls_in_node(n) if any(t.kind == "ext" and t.ref == "threading.Thread" for t in ctx.cg.typer.resolve_call(st, c))]
     okt = len(thr) == 1
     tattr = None
+    tlocal = None
     if okt:
         n, c = thr[0]
         tgt = next((k.value for k in c.keywords if k.arg == "target"), None)
-        okt = common.is_self_attr(tgt, "_reader") and isinstance(n.ast, ast.Assign) and common.is_self_attr(n.ast.targets[0])
-        tattr = n.ast.targets[0].attr if okt else None
-    starts = [n for n in scfg.live for c, m in calls_in_node(n) if isinstance(c.func, ast.Attribute) and c.func.attr == "start" and tattr and common.is_self_attr(c.func.value, tattr)]
+        okt = common.is_self_attr(tgt, "_reader") and isinstance(n.ast, ast.Assign)
+        tlocal = None
+        if okt and common.is_self_attr(n.ast.targets[0]):
+            tattr = n.ast.targets[0].attr
+        elif okt and isinstance(n.ast.targets[0], ast.Name) and len(stores_to_name(st, n.ast.targets[0].id)) == 1:
+            # `thread = Thread(...)`; `self.<attr> = thread`: the same thread object under a local name
+            tlocal = n.ast.targets[0].id
+            fw = [x for x in iter_own_nodes(st.node) if isinstance(x, ast.Assign) and len(x.targets) == 1 and common.is_self_attr(x.targets[0])
+                  and isinstance(x.value, ast.Name) and x.value.id == tlocal]
+            tattr = fw[0].targets[0].attr if len(fw) == 1 else None
+        okt = okt and tattr is not None
+    starts = [n for n in scfg.live for c, m in calls_in_node(n) if isinstance(c.func, ast.Attribute) and c.func.attr == "start" and tattr
+              and (common.is_self_attr(c.func.value, tattr) or (tlocal is not None and isinstance(c.func.value, ast.Name) and c.func.value.id == tlocal))]
     regs = [n for n in scfg.live for c, m in calls_in_node(n) if isinstance(c.func, ast.Name) and c.func.id in ("addDestination", "add_destination", "add_destinations")
             and c.args and isinstance(c.args[0], ast.Name) and c.args[0].id == "self"]
     okt = okt and len(starts) == 1 and bool(regs) and scfg.precedes(starts, regs)[0] and scfg.count_range(scfg.entry, [scfg.exit], lambda x: 1 if x in starts else 0) == (1, 1)
